@@ -276,9 +276,18 @@ class Gen:
             ns = min(ns, 64)
             if ns * ng <= 64:
                 ns = min(64, 64 // ng + 1)
+        shape = None
+        if isinstance(force, tuple) and force and force[0] == "shape":
+            # an admissible message with exactly force[1] satellites and force[2] signals (every cell present when they fit)
+            shape = force
+            cls = None
+            ng = max(1, min(force[2], len(table)))
+            ns = max(1, min(force[1], 64 // ng))
         S = sorted(rng.sample(range(1, 65), ns))
         G = rng.sample(table, ng)
         cells = set()
+        if shape is not None:
+            cells = {(s, g_) for s in S for g_ in G}
         for s in S:
             cells.add((s, rng.choice(G)))
         for g in G:
